@@ -1,6 +1,7 @@
 package main
 
 import (
+	"runtime/debug"
 	"runtime/pprof"
 	"encoding/json"
 	"flag"
@@ -79,7 +80,7 @@ func main() {
 		maxPaths  = flag.Int("max-paths", 200000, "path bound")
 		allocCap  = flag.Int64("alloc-cap", 1<<22, "engine cap on one allocation (bytes)")
 		solver    = flag.String("solver", "z3", "z3 | z3-new | cvc5")
-		timeoutMs = flag.Int("timeout-ms", 30000, "per-query solver timeout")
+		timeoutMs = flag.Int("timeout-ms", 2000, "per-query timeout of the incremental solver before the one-shot fallback (60 s)")
 		intMode   = flag.Bool("int", false, "integer arithmetic mode")
 		samples   = flag.Int("samples", 4, "number of path samples to keep")
 		budget    = flag.Duration("budget", 0, "wall-clock budget (0 = none)")
@@ -90,6 +91,7 @@ func main() {
 	)
 	cpuprof := flag.String("cpuprofile", "", "write cpu profile")
 	flag.Parse()
+	debug.SetGCPercent(400)
 	if *cpuprof != "" {
 		f, _ := os.Create(*cpuprof)
 		pprof.StartCPUProfile(f)
